@@ -71,13 +71,15 @@ def build(case):
                 clusters=['same', 'absent', 'curated', 'curated'][int(rng.integers(0, 4))],
                 spikeless=['none', 'first', 'middle', 'last'][int(rng.integers(0, 4))],
                 probes=bool(rng.random() < 0.35), wm=bool(rng.random() < 0.75), vec2d=bool(rng.random() < 0.25),
-                rate=[100., 30000., 0.05][int(rng.integers(0, 3))], ties=bool(rng.random() < 0.3),
+                rate=[100., 30000., 0.05, 1. / 300][int(rng.integers(0, 4))],   # 0.05 -> 30-sample chunks, 1/300 -> 2-sample chunks (> 20 chunks) ties=bool(rng.random() < 0.3),
                 shanks=[0, 2][int(rng.integers(0, 2))], ncdat_extra=int(rng.integers(0, 2)),
                 dtype_ids=['int32', 'uint32', 'uint16'][int(rng.integers(0, 3))],
                 far_ids=int(rng.choice([0, 0, 0, 0, 300, 2500])))
     if rng.random() < 0.03:
         # many templates with narrow id dtypes (products of ids overflow 16 bits)
         opts.update(nt=300, ns=900, dtype_ids='uint16', clusters='curated', far_ids=0, raw='none', features='none')
+    opts.update(dtype_amps=['float64', 'float32'][int(rng.integers(0, 2))],
+                dtype_templates=['float32', 'float32', 'float64'][int(rng.integers(0, 3))])
     if case.get('large'):
         # size-dependent code paths: > 1 MiB id files (> 262144 int32 spikes)
         opts.update(ns=300000, n_samples=400000, raw='none', features='none', far_ids=0, nc=6, nt=5, rate=30000.)
